@@ -134,6 +134,17 @@ CLAIMED = {
             "Twisted Deferred/inlineCallbacks/callLater semantics modelled (not verified); ties between timers and commits excluded; "
             "a script file adds one delay pause at its start (at least the delay still elapses)",
             "Coq proof (induction over the script, sortedness invariants over Q) + differential correspondence of timed traces"),
+    "C09": ("Coq model of the exit-status machine (VNCDoCLIFactory.clientConnectionLost/Failed/error/done, build_tool's closing "
+            "callback, the --timeout timer, reactor.stop) and theorems over ALL event sequences: status 0 only if the closing "
+            "callback ran (every command done, vncdo closed) and the connection then ended cleanly; any fault before completion and "
+            "the timeout give non-zero; the timeout schedules the stop; PARTIAL by nature for the wall-clock half: real vncdo "
+            "processes run against scripted loopback servers with faults (refuse, RFB refusal, auth failure, unknown security type, "
+            "close, reset, unknown message/encoding, silence) at every point of the conversation for 3.3/3.7/3.8 and five scripts, "
+            "incl. 12 MiB of output against a non-reading / resetting server; exit status, termination and wall time <= T + 4 s judged; "
+            "the machine is compared on each scenario's event sequence",
+            "which reactor events a server behaviour produces, the kernel's socket teardown and the wall clock are sampled, not "
+            "proved; open finding c09-abort-then-buffered-update",
+            "Coq proof (invariant over event sequences) + fault enumeration with real processes (differential correspondence)"),
 }
 NOT_YET = "check not built yet in this session (planned Coq model in DESIGN.md §3); not claimed"
 
